@@ -12,6 +12,9 @@ from refs import labels_ref, tdc_ref
 
 ID = "C01"
 LEVEL = "exploration"
+LEVEL_TEXT = (
+    "Exact agreement with a rational-arithmetic reference of the defining formula on every weak ordering x labelling x direction of n<=4 (quick) / n<=6 (thorough), exhaustively, plus thousands of generated larger vectors over all dtypes; metamorphic rescaling and label rules on the same cases. Exploration, not a proof for arbitrary n."
+)
 TECHNIQUE = (
     "Hypothesis-generated weak orderings x labellings x dtypes x directions, plus exhaustive enumeration of "
     "all weak orderings of small n, against an exact rational reference of the defining formula"
